@@ -5,7 +5,14 @@
     sufficient, nothing is dropped, the odd elements are markers, no marker
     starts inside an even element, and these facts determine the result;
   * what a failing call has written: the events left behind by a late failure
-    are a prefix of what the complete run writes;
+    are a prefix of what the complete run writes, and — in closed form — exactly
+    the events of the lines before the fault (`'line'`, `writtenBeforeG_line`)
+    resp. `process_words` of every context closed by a marker before the fault
+    (`'document'`, `writtenBeforeG_document`, `closedContexts`, `itemsBefore`);
+    a callable's fault position is a text piece (`firstFault_document_even`);
+  * two `allowed_symbols` values that filter alike give the same run
+    (`createEventsG_congr_allowed`; the two filter code paths are compared in
+    PyndlProofs/Create.lean, `filterRegex_eq_filterCallable`);
   * the cleaning clauses: every character of a written token passed the symbol
     filter / comes out of the lowering function; `remove_duplicates`;
     `event_structure='line'`.
@@ -421,6 +428,189 @@ theorem writtenBeforeG_prefix (ops : TextOps) (o : Options) (rawLines : List (Li
       rw [partialDocument_end]
       exact partialDocument_prefix _ _
 
+/-! ### the exact content of the left-over file, in closed form -/
+
+section Closed
+variable {ω : Type} (pw : List ω → List (Ev ω))
+
+/-- the contexts CLOSED by a marker: all contexts of the item stream but the
+    last one, which is still open (it is the carry-over buffer of the machine) -/
+def closedContexts (items : List (Item ω)) : List (List ω) := (groupContexts items []).dropLast
+
+theorem groupContexts_ne_nil : ∀ (items : List (Item ω)) (cur : List ω), groupContexts items cur ≠ []
+  | [], _ => by simp [groupContexts]
+  | .chunk ws :: rest, cur => by simpa [groupContexts] using groupContexts_ne_nil rest (cur ++ ws)
+  | .boundary :: rest, cur => by simp [groupContexts]
+
+/-- a trailing empty chunk changes nothing -/
+theorem groupContexts_snoc_chunk_nil : ∀ (items : List (Item ω)) (cur : List ω),
+    groupContexts (items ++ [.chunk []]) cur = groupContexts items cur
+  | [], cur => by simp [groupContexts]
+  | .chunk ws :: rest, cur => by
+    simpa [groupContexts] using groupContexts_snoc_chunk_nil rest (cur ++ ws)
+  | .boundary :: rest, cur => by
+    simpa [groupContexts] using groupContexts_snoc_chunk_nil rest []
+
+/-- **the machine before the final flush has written exactly the closed
+    contexts** (for lines of the `re.split` shape). -/
+theorem foldl_docStep_closed (hnil : pw [] = []) (lines : List (List (Option (List ω))))
+    (hs : ∀ l ∈ lines, wellShaped l = true) (w : List ω) (out : List (Ev ω)) :
+    (lines.foldl (docStep pw) (w, out)).2 =
+      out ++ ((groupContexts (lines.flatMap (fun l => lineItems (evens l))) w).dropLast).flatMap pw := by
+  induction lines generalizing w out with
+  | nil => simp [groupContexts]
+  | cons l lines ih =>
+    obtain ⟨e0, ts, rfl⟩ := wellShaped_exists l (hs l (List.mem_cons_self))
+    obtain ⟨closed, w', h1, h2⟩ := docStep_shape pw hnil e0 ts w out
+    simp only [List.foldl_cons, h1, List.flatMap_cons, evens_withMarkers]
+    rw [ih (fun l hl => hs l (List.mem_cons_of_mem _ hl)), h2,
+      List.dropLast_append_of_ne_nil (groupContexts_ne_nil _ _)]
+    simp [List.append_assoc]
+
+theorem partialDocument_eq_closed (hnil : pw [] = []) (lines : List (List (Option (List ω))))
+    (hs : ∀ l ∈ lines, wellShaped l = true) :
+    partialDocument pw lines
+      = (closedContexts (lines.flatMap (fun l => lineItems (evens l)))).flatMap pw := by
+  simpa [partialDocument, closedContexts] using foldl_docStep_closed pw hnil lines hs [] []
+
+/-- the items of the text pieces `t0 … t(j-1)` of a line, each followed by the
+    marker that closes it -/
+def closedItems (ts : List (Option (List ω))) : List (Item ω) :=
+  ts.flatMap fun t => [.chunk (t.getD []), .boundary]
+
+theorem lineItems_snoc : ∀ (ts : List (Option (List ω))) (x : Option (List ω)),
+    lineItems (ts ++ [x]) = closedItems ts ++ [.chunk (x.getD [])]
+  | [], x => by simp [lineItems, closedItems]
+  | [t], x => by simp [lineItems, closedItems]
+  | t :: t2 :: rest, x => by
+    have := lineItems_snoc (t2 :: rest) x
+    simp only [List.cons_append] at this
+    simp only [List.cons_append, lineItems, this, closedItems, List.flatMap_cons]
+    simp
+
+/-- a line of the `re.split` shape, cut in front of its text piece `j` (element
+    `2j`), with an empty piece in its place: again of that shape, and its text
+    pieces are the first `j` text pieces followed by the empty one -/
+theorem truncated_line : ∀ (j : Nat) (e0 : Option (List ω)) (ts : List (Option (List ω))), j ≤ ts.length →
+    wellShaped ((e0 :: withMarkers ts).take (2 * j) ++ [none]) = true ∧
+    evens ((e0 :: withMarkers ts).take (2 * j) ++ [none]) = (e0 :: ts).take j ++ [none]
+  | 0, _, _, _ => by simp [wellShaped, evens]
+  | j + 1, e0, [], h => by simp at h
+  | j + 1, e0, t :: ts, h => by
+    have hj : j ≤ ts.length := by simpa using h
+    have h2 : 2 * (j + 1) = (2 * j + 1) + 1 := by omega
+    obtain ⟨ih1, ih2⟩ := truncated_line j t ts hj
+    have hrw : (e0 :: withMarkers (t :: ts)).take (2 * (j + 1)) ++ [none]
+        = e0 :: none :: ((t :: withMarkers ts).take (2 * j) ++ [none]) := by
+      rw [h2]; simp [withMarkers]
+    rw [hrw]
+    refine ⟨by simpa [wellShaped] using ih1, ?_⟩
+    simp only [evens, ih2, List.take_succ_cons, List.cons_append]
+
+theorem withMarkers_length (ts : List (Option (List ω))) : (withMarkers ts).length = 2 * ts.length := by
+  induction ts with
+  | nil => rfl
+  | cons t ts ih => simp only [withMarkers, List.length_cons, ih]; omega
+
+/-- the item stream the machine has consumed when it reaches text piece `j` of
+    line `k`: all items of the lines before `k`, and the first `j` text pieces of
+    line `k`, each followed by its marker.  (`k` past the last line, `j = 0`:
+    the items of all lines.) -/
+def itemsBefore (elemLines : List (List (Option (List ω)))) (k j : Nat) : List (Item ω) :=
+  (elemLines.take k).flatMap (fun l => lineItems (evens l))
+    ++ closedItems ((evens (elemLines.getD k [])).take j)
+
+/-- **late failure, `'document'`, closed form**: an exception in text piece `j`
+    (element `2j`) of line `k` leaves exactly `process_words` of every context
+    that a marker has closed before that point — nothing of the open context. -/
+theorem partialDocument_trunc_closed (hnil : pw [] = []) (lines : List (List (Option (List ω))))
+    (hs : ∀ l ∈ lines, wellShaped l = true) (k j : Nat)
+    (hk : k < lines.length) (hj : 2 * j < (lines[k]).length) :
+    partialDocument pw (lines.take k ++ [(lines[k]).take (2 * j) ++ [none]])
+      = (closedContexts (itemsBefore lines k j)).flatMap pw := by
+  obtain ⟨e0, ts, hl⟩ := wellShaped_exists lines[k] (hs _ (List.getElem_mem hk))
+  have hjt : j ≤ ts.length := by
+    rw [hl] at hj; simp only [List.length_cons, withMarkers_length] at hj; omega
+  obtain ⟨t1, t2⟩ := truncated_line j e0 ts hjt
+  rw [partialDocument_eq_closed pw hnil]
+  · simp only [closedContexts, itemsBefore, List.flatMap_append, List.flatMap_cons, List.flatMap_nil,
+      List.append_nil]
+    rw [hl, t2, lineItems_snoc, Option.getD_none, ← List.append_assoc, groupContexts_snoc_chunk_nil]
+    have : lines.getD k [] = e0 :: withMarkers ts := by
+      rw [List.getD_eq_getElem?_getD, List.getElem?_eq_getElem hk, Option.getD_some, hl]
+    rw [this, evens_withMarkers]
+  · intro l hmem
+    rcases List.mem_append.mp hmem with h | h
+    · exact hs l (List.mem_of_mem_take h)
+    · rw [List.mem_singleton] at h
+      rw [h, hl]; exact t1
+
+/-- … and an exception of the line iterator after all lines: every closed
+    context, nothing of the open one. -/
+theorem partialDocument_end_closed (hnil : pw [] = []) (lines : List (List (Option (List ω))))
+    (hs : ∀ l ∈ lines, wellShaped l = true) (k : Nat) (hk : lines.length ≤ k) :
+    partialDocument pw (lines ++ [[none]]) = (closedContexts (itemsBefore lines k 0)).flatMap pw := by
+  rw [partialDocument_end, partialDocument_eq_closed pw hnil lines hs]
+  simp [itemsBefore, closedItems, List.take_of_length_le hk]
+
+end Closed
+
+/-- **`'line'`, closed form**: what is left are exactly the events of the lines
+    before the fault — the file a complete call on the corpus `lines[:k]` writes. -/
+theorem writtenBeforeG_line (ops : TextOps) (o : Options) (hc : o.context = .line)
+    (rawLines : List (List Char)) (k i : Nat) :
+    writtenBeforeG ops o rawLines k i = createEventsG ops o (rawLines.take k) := by
+  simp only [writtenBeforeG, createEventsG, hc]
+
+/-- `process_words([])` writes nothing, for every option combination. -/
+theorem processWords_nil' (o : Options) : processWords o [] = [] := by
+  cases o with
+  | mk al ctx ev cue lc rd =>
+    cases ev with
+    | consecutiveWords n =>
+      have h0 : intRange (1 - min n 0) 0 = [] := by
+        simp only [intRange]
+        have : ((0 : Int) - (1 - min n 0)).toNat = 0 := by omega
+        rw [this]; rfl
+      cases cue <;> simp [processWords, genOccurrences, genConsecutive, h0, processOccurrences]
+    | wordToWord b a =>
+      cases cue <;> simp [processWords, genOccurrences, genWordToWord, enumFrom, processOccurrences]
+    | line =>
+      cases cue <;> simp [processWords, genOccurrences, processOccurrences, ngramsToWord1, wordCues1]
+
+/-- **`'document'`, closed form**: a fault in text piece `j` (element `2j` of the
+    split) of line `k` — or after the last line (`rawLines.length ≤ k`, `j = 0`:
+    the `UnicodeDecodeError` of the line iterator) — leaves exactly
+    `process_words` of every context closed by a marker before that point:
+    the markers of the lines before `k` and the first `j` markers of line `k`.
+    Nothing of the open context (the carry-over buffer) is written. -/
+theorem writtenBeforeG_document (ops : TextOps) (o : Options) (hc : o.context = .document)
+    (rawLines : List (List Char)) (k j : Nat)
+    (hkj : (k < rawLines.length ∧
+              2 * j < (docLineElemsG ops o.lowerCase o.allowed (rawLines.getD k [])).length)
+            ∨ (rawLines.length ≤ k ∧ j = 0)) :
+    writtenBeforeG ops o rawLines k (2 * j)
+      = (closedContexts (itemsBefore (rawLines.map (docLineElemsG ops o.lowerCase o.allowed)) k j)).flatMap
+          (processWords o) := by
+  have hs : ∀ l ∈ rawLines.map (docLineElemsG ops o.lowerCase o.allowed), wellShaped l = true := by
+    intro l hl
+    simp only [List.mem_map] at hl
+    obtain ⟨raw, _, rfl⟩ := hl
+    exact docLineElemsG_wellShaped ops o.lowerCase o.allowed raw
+  simp only [writtenBeforeG, hc]
+  rcases hkj with ⟨hk, hj⟩ | ⟨hk, rfl⟩
+  · have hk' : k < (rawLines.map (docLineElemsG ops o.lowerCase o.allowed)).length := by simpa using hk
+    have hget : (rawLines.map (docLineElemsG ops o.lowerCase o.allowed))[k]
+        = docLineElemsG ops o.lowerCase o.allowed (rawLines.getD k []) := by
+      simp [List.getD_eq_getElem?_getD, List.getElem?_eq_getElem hk]
+    have := partialDocument_trunc_closed (processWords o) (processWords_nil' o) _ hs k j hk'
+      (by rw [hget]; exact hj)
+    rw [hget, ← List.map_take] at this
+    exact this
+  · have := partialDocument_end_closed (processWords o) (processWords_nil' o) _ hs k (by simpa using hk)
+    rw [List.take_of_length_le hk]
+    simpa using this
+
 /-! ### where the callable raises -/
 
 theorem seenG_length (ops : TextOps) (lc : Bool) (a : Allowed) (raw : List Char) :
@@ -448,6 +638,76 @@ theorem firstFault_spec (raises : Char → Bool) (ops : TextOps) (lc : Bool) (ct
       rw [this, List.getD_cons_succ]
       exact h3
 
+/-- the elements at odd positions of `t0 :: [m1, t1, …]` are the `mj` -/
+theorem interleave_odd (t0 : List Char) : ∀ (ms : List (List Char × List Char)) (i : Nat),
+    (t0 :: interleave ms)[2 * i + 1]? = (ms[i]?).map (·.1)
+  | [], i => by simp [interleave]
+  | p :: r, 0 => by simp [interleave]
+  | p :: r, i + 1 => by
+    have : 2 * (i + 1) + 1 = (2 * i + 1) + 1 + 1 := by omega
+    rw [this]
+    simp only [interleave, List.getElem?_cons_succ]
+    exact interleave_odd p.2 r i
+
+/-- the callable is never handed a character of a marker element: the strings
+    seen at the odd positions of a split are empty -/
+theorem seenG_odd (ops : TextOps) (lc : Bool) (raw : List Char) (i : Nat)
+    (hi : 2 * i + 1 < (seenG ops lc .document raw).length) :
+    (seenG ops lc .document raw)[2 * i + 1] = [] := by
+  obtain ⟨t0, ms, h1, h2⟩ := splitAux_shape ((strip ops.isWs raw).length + 1) (strip ops.isWs raw) []
+  have hcs : contextSplit (strip ops.isWs raw) = t0 :: interleave ms := h1
+  have key : ∀ (f : List Char → List Char), (∀ s, isMarkerAt s = true → f (s.take markerLen) = []) →
+      ∀ x, ((t0 :: interleave ms).map f)[2 * i + 1]? = some x → x = [] := by
+    intro f hf x hx
+    rw [List.getElem?_map, interleave_odd] at hx
+    cases hm : ms[i]? with
+    | none => simp [hm] at hx
+    | some p =>
+      simp only [hm, Option.map_some, Option.some.injEq] at hx
+      obtain ⟨s', hs', hp⟩ := h2 p (List.mem_of_getElem? hm)
+      rw [← hx, hp]; exact hf s' hs'
+  have hget : (seenG ops lc .document raw)[2 * i + 1]? = some (seenG ops lc .document raw)[2 * i + 1] :=
+    List.getElem?_eq_getElem hi
+  revert hget hi
+  simp only [seenG, hcs]
+  cases ms with
+  | nil => intro hi; simp [interleave] at hi
+  | cons p r =>
+    simp only [interleave]
+    intro hi hget
+    refine key _ ?_ _ hget
+    intro s' hs'
+    simp [removeMarkers_marker hs', strip]
+
+/-- **a fault position of a callable is a TEXT piece**: in `'document'` contexts
+    the element index is even (`i = 2j`, `j` = number of markers of the line
+    already passed). -/
+theorem firstFault_document_even (raises : Char → Bool) (ops : TextOps) (lc : Bool) :
+    ∀ (lines : List (List Char)) (k0 k i : Nat),
+      firstFault raises ops lc .document k0 lines = some (k, i) → i % 2 = 0
+  | [], _, _, _, h => by simp [firstFault] at h
+  | raw :: rest, k0, k, i, h => by
+    simp only [firstFault] at h
+    split at h
+    · rename_i j hj
+      simp only [Option.some.injEq, Prod.mk.injEq] at h
+      obtain ⟨_, rfl⟩ := h
+      obtain ⟨hlt, hany⟩ := (List.findIdx?_eq_some_iff_getElem.mp hj)
+      rcases Nat.mod_two_eq_zero_or_one j with h0 | hodd
+      · exact h0
+      exfalso
+      have hany := hany.1
+      have hj2 : j = 2 * (j / 2) + 1 := by omega
+      have h0 := seenG_odd ops lc raw (j / 2) (by omega)
+      have : (seenG ops lc .document raw)[j] = [] := by
+        have e : (seenG ops lc .document raw)[j]? = (seenG ops lc .document raw)[2 * (j / 2) + 1]? := by
+          rw [← hj2]
+        rw [List.getElem?_eq_getElem hlt, List.getElem?_eq_getElem (by omega)] at e
+        rw [Option.some.inj e, h0]
+      rw [this] at hany
+      simp at hany
+    · exact firstFault_document_even raises ops lc rest (k0 + 1) k i h
+
 /-- a callable that never raises has no fault position -/
 theorem firstFault_never (ops : TextOps) (lc : Bool) (ctx : ContextStructure) :
     ∀ (lines : List (List Char)) (k0 : Nat), firstFault (fun _ => false) ops lc ctx k0 lines = none
@@ -466,20 +726,40 @@ theorem firstFault_never (ops : TextOps) (lc : Bool) (ctx : ContextStructure) :
 /-- the symbol filter: what comes out is the blank or passed the test -/
 theorem mem_filterSymbols_ok {a : Allowed} {s : List Char} {c : Char} (h : c ∈ filterSymbols a s) :
     c = ' ' ∨ a.ok c = true := by
-  cases a with
-  | all => exact Or.inr rfl
-  | expr e =>
-    simp only [filterSymbols, List.mem_map] at h
-    obtain ⟨d, _, rfl⟩ := h
-    split
-    · rename_i hd; exact Or.inr hd
-    · exact Or.inl rfl
-  | table rs =>
-    simp only [filterSymbols, List.mem_map] at h
-    obtain ⟨d, _, rfl⟩ := h
-    split
-    · rename_i hd; exact Or.inr hd
-    · exact Or.inl rfl
+  rw [filterSymbols_eq_map, List.mem_map] at h
+  obtain ⟨d, _, rfl⟩ := h
+  split
+  · rename_i hd; exact Or.inr hd
+  · exact Or.inl rfl
+
+/-! ### two `allowed_symbols` values that filter alike give the same run -/
+
+theorem lineWordsG_congr {a a' : Allowed} (h : filterSymbols a = filterSymbols a') (ops : TextOps) (lc : Bool) :
+    lineWordsG ops lc a = lineWordsG ops lc a' := by
+  funext raw; simp only [lineWordsG, processLineG, h]
+
+theorem docLineElemsG_congr {a a' : Allowed} (h : filterSymbols a = filterSymbols a') (ops : TextOps)
+    (lc : Bool) : docLineElemsG ops lc a = docLineElemsG ops lc a' := by
+  have he : elemWordsG ops lc a = elemWordsG ops lc a' := by
+    funext piece; simp only [elemWordsG, processLineG, h]
+  funext raw; simp only [docLineElemsG, processLineG, h, he]
+
+theorem createEventsG_congr_allowed (ops : TextOps) (a a' : Allowed) (h : filterSymbols a = filterSymbols a')
+    (ctx : ContextStructure) (es : EventStructure) (cs : CueStructure) (lc rd : Bool)
+    (rawLines : List (List Char)) :
+    createEventsG ops ⟨a, ctx, es, cs, lc, rd⟩ rawLines = createEventsG ops ⟨a', ctx, es, cs, lc, rd⟩ rawLines := by
+  cases ctx
+  · simp only [createEventsG, docLineElemsG_congr h]; rfl
+  · simp only [createEventsG, lineWordsG_congr h]; rfl
+
+theorem writtenBeforeG_congr_allowed (ops : TextOps) (a a' : Allowed) (h : filterSymbols a = filterSymbols a')
+    (ctx : ContextStructure) (es : EventStructure) (cs : CueStructure) (lc rd : Bool)
+    (rawLines : List (List Char)) (k i : Nat) :
+    writtenBeforeG ops ⟨a, ctx, es, cs, lc, rd⟩ rawLines k i
+      = writtenBeforeG ops ⟨a', ctx, es, cs, lc, rd⟩ rawLines k i := by
+  cases ctx
+  · simp only [writtenBeforeG, docLineElemsG_congr h]; rfl
+  · simp only [writtenBeforeG, lineWordsG_congr h]; rfl
 
 section Chars
 variable (P : Char → Prop)
